@@ -151,6 +151,13 @@ def pipe_judge(ctx, cases, label, clauses, mech=True):
             if not (set(again) & set(mine)):
                 ctx.extra["timing_retries"] = ctx.extra.get("timing_retries", 0) + 1
                 continue
+            # a controlled schedule that cannot be driven says something about the controller's picture of the schedule
+            # points first: a wedge or a lost item of the code itself also shows when the same configuration runs freely
+            # (the controller then only records).  Without that confirmation the finding is DRIFT, not a violation.
+            if rec["case"].get("mode") == "controlled" and not pipe_confirm_free(ctx, rec["case"], clauses):
+                ctx.drift.append("%s run %d: controlled schedule could not be driven (%s), free-running runs of the same "
+                                 "configuration show no violation" % (label, idx, ",".join(mine)))
+                continue
         slim = dict(rec)
         vlib.report(ctx, mine, slim, component="pipe", case=rec["case"], kind="schedule")
     for idx, why in drifts:
@@ -164,6 +171,27 @@ def pipe_judge(ctx, cases, label, clauses, mech=True):
                             "schedule": r.get("sched", [])[:60],
                             "events": ["%s(%s,%s)" % (e["e"], e["w"], e["x"]) for e in r["ev"][:60]]})
     return obs
+
+
+def pipe_confirm_free(ctx, case, clauses):
+    """Free-running runs with the configuration of a controlled schedule (same W, N, drop position), several seeds and
+    consumer speeds.  True if any of them violates a clause of this property."""
+    sched = case.get("sched", [])
+    drop_after = sched[:sched.index("x")].count("c") if "x" in sched else None
+    cases = []
+    for k in range(8):
+        c = {"mode": "free", "W": case["W"], "N": case["N"], "seed": 1000 + 7 * k, "slow": [0.0, 0.1, 0.8][k % 3]}
+        if drop_after is not None:
+            c["drop_after"] = min(drop_after, case["N"])
+        cases.append(c)
+    cpath = ctx.path("confirm.ndjson")
+    vlib.write_ndjson(cpath, cases)
+    opath = ctx.path("confirm-obs.ndjson")
+    vlib.harness(["exec", "pipe", cpath, opath, 60000])
+    f, _, _ = vlib.judge(ctx, "Trace_PipeObs", opath, len(cases), name="Trace_PipeObs-confirm", workers=2)
+    hit = [w for (_, why) in f for w in why if w in clauses or w in ("hang", "process_exit")]
+    ctx.extra["free_confirmations"] = ctx.extra.get("free_confirmations", 0) + 1
+    return bool(hit)
 
 
 def pipe_rerun(ctx, case):
@@ -191,8 +219,9 @@ def pipe_mechanism(ctx, obs, obs_path, label):
                 k = re.findall(r"/\\ run = (\d+)", r["out"])
                 idx = int(k[-1]) if k else 0
                 inv = m.group(1)
-                prop_inv = {"InOrder": "in_order", "AtMostOnce": "processed_at_most_once", "Complete": "complete_at_end",
-                            "LookAhead": "bounded_lookahead", "AfterDrop": "bounded_pulls_after_drop"}
+                # LookAhead / AfterDrop of Pipe.tla are the exact bounds of the mechanism as written (channel capacity W):
+                # the property only asks for a constant of thread count and buffer size, so they are DRIFT here
+                prop_inv = {"InOrder": "in_order", "AtMostOnce": "processed_at_most_once", "Complete": "complete_at_end"}
                 if inv in prop_inv and idx:
                     why = prop_inv[inv]
                     cl = C05_CLAUSES if ctx.pid == "C05" else C09_CLAUSES
